@@ -366,6 +366,64 @@ AUpdateSigma(i, s) ==
        /\ Emit(Put(i, c1), Step("UpdateSigma", [i |-> i, Sigma |-> qS], NoObj, 0, NoObj, i, ExpectObj(c1), NoObj))
 
 \* ------------------------------------------------------------------------
+\* NN-controlled conditional: p(y | x, u) = N(y; M(u) x + b(u), Sigma), (M(u), b(u)) = control_func(u).
+\* The harness supplies an AFFINE control function u -> u Wc + w0c with exact rational Wc, w0c, so that the
+\* specification can compute M(u), b(u) exactly; every operation with a control u is specified as the same
+\* operation on the linear conditional set_control_variable(u).
+\* ------------------------------------------------------------------------
+IsNN(o) == o.cls = "CondNN"
+NNWc(du, dout, s) == Q([a \in 1..du |-> [b \in 1..dout |-> ((2 * a + 3 * b + s) % 5) - 2]], 2)
+NNw0(dout, s) == Q([b \in 1..dout |-> ((b + 2 * s) % 3) - 1], 1)
+UMenu(du) == << Q([a \in 1..du |-> IF a = 1 THEN 1 ELSE -1], 1), Q([a \in 1..du |-> a], 2), Q([a \in 1..du |-> 2 - a], 3) >>
+
+ANewNN(dy, dx, du, s) ==
+    LET qS == SPD(dy)[(s % 4) + 1]
+        qW == NNWc(du, dy * (dx + 1), s)
+        qw0 == NNw0(dy * (dx + 1), s)
+        Sg == QM(qS) ID == InvDet(Sg)
+        c == [cls |-> "CondNN", Sig |-> <<Sg>>, Lam |-> <<ID.inv>>, dSig |-> <<ID.det>>, Wc |-> QM(qW), w0c |-> QV(qw0),
+              dy |-> dy, dx |-> dx, du |-> du]
+    IN Emit(Append(heap, c),
+            Step("NewNN", [Sigma |-> qS, Dx |-> dx, Du |-> du, Wc |-> qW, w0c |-> qw0], NoObj, NextId,
+                 [cls |-> "CondNN", Sig |-> c.Sig, Lam |-> c.Lam, dSig |-> c.dSig], 0, NoObj, NoObj))
+
+\* set_control_variable(u): a linear conditional with one component per row of u
+SetControl(c, U) ==
+    LET R == Len(U)
+        out(r) == VAdd(VecMat(U[r], c.Wc), c.w0c)
+    IN MkCond("Cond", MkSeq(R, LAMBDA r : MkMat(c.dy, c.dx, LAMBDA a, b : out(r)[(a - 1) * c.dx + b])),
+              MkSeq(R, LAMBDA r : MkVec(c.dy, LAMBDA a : out(r)[c.dy * c.dx + a])),
+              MkSeq(R, LAMBDA r : c.Sig[1]), MkSeq(R, LAMBDA r : c.Lam[1]), MkSeq(R, LAMBDA r : c.dSig[1]))
+
+ASetControl(i, qU) ==
+    LET c == heap[i] n == SetControl(c, MkSeq(Len(qU), LAMBDA r : QV(qU[r]))) IN
+    /\ IsNN(c)
+    /\ Emit(Append(heap, n), Step("SetControl", [i |-> i, u |-> qU], NoObj, NextId, ExpectObj(n), 0, NoObj, NoObj))
+
+\* op in {"joint", "marginal", "conditional", "set_y", "cond_on_x", "conditional_entropy", "mutual_information",
+\*        "int_log_cond", "int_log_cond_y"}: the NN-controlled call with control u
+ANNOp(op, i, j, qU, qPts) ==
+    LET c == heap[i] U == MkSeq(Len(qU), LAMBDA r : QV(qU[r])) cu == SetControl(c, U)
+        p == heap[j] Rx == IF j = 0 THEN 1 ELSE NumR(heap[j]) Rn == CR(cu) * Rx
+        pts == MkSeq(Len(qPts), LAMBDA k : QV(qPts[k]))
+        a == [op |-> op, i |-> i, j |-> j, u |-> qU, pts |-> qPts]
+    IN /\ IsNN(c)
+       /\ CASE op \in {"joint", "marginal", "conditional"} ->
+                 LET n == CASE op = "joint" -> Joint(cu, p) [] op = "marginal" -> MarginalT(cu, p) [] op = "conditional" -> CondT(cu, p) IN
+                 TransformOK(cu, p) /\ Emit(Append(heap, n), Step("NNOp", a, NoObj, NextId, ExpectObj(n), 0, NoObj, NoObj))
+            [] op = "set_y" -> LET n == SetY(cu, pts) IN Emit(Append(heap, n), Step("NNOp", a, NoObj, NextId, ExpectObj(n), 0, NoObj, NoObj))
+            [] op = "cond_on_x" -> LET n == CondOnX(cu, pts) IN Emit(Append(heap, n), Step("NNOp", a, NoObj, NextId, ExpectObj(n), 0, NoObj, NoObj))
+            [] op \in {"conditional_entropy", "mutual_information"} ->
+                 TransformOK(cu, p) /\
+                 Emit(heap, Step("NNOp", a, NoObj, 0, NoObj, 0, NoObj,
+                                 [ln |-> MkSeq(Rn, LAMBDA k : IF op = "conditional_entropy" THEN CondEntropy(cu, TI(k, Rx))
+                                                               ELSE MutualInfo(cu, TI(k, Rx), p, TJ(k, Rx)))]))
+            [] op = "int_log_cond" ->
+                 Emit(heap, Step("NNOp", a, NoObj, 0, NoObj, 0, NoObj, [ln |-> MkSeq(NumR(p), LAMBDA k : IntLogCond(cu, 1, p, k))]))
+            [] op = "int_log_cond_y" ->
+                 Emit(heap, Step("NNOp", a, NoObj, 0, NoObj, 0, NoObj, [ln |-> MkSeq(NumR(p), LAMBDA k : IntLogCondY(cu, 1, p, k, pts[k]))]))
+
+\* ------------------------------------------------------------------------
 \* Polynomial integrals: integrate(key, **coefficients)
 \* A coefficient spec (one per affine form) is a record
 \*   [mm |-> "none" | "shared" | "per", mat |-> sequence of exact menu matrices,
